@@ -375,7 +375,7 @@ func c09roundtrip(id string, s *Scn, v c09variant, covered map[string]bool) core
 	return core.Outcome{Class: Digest(y), Sample: sample}
 }
 
-func c09docs() []c09doc {
+func c09docs(quick bool) []c09doc {
 	corpus := CorpusScns()
 	corpus["override-debug"].Opts = []func(*loader.Options){loader.WithProfiles([]string{"debug"})}
 	var docs []c09doc
@@ -393,7 +393,18 @@ func c09docs() []c09doc {
 	docs = append(docs, c09singles("single/other", corpus["rich2"], "compose.yaml", "other")...)
 	docs = append(docs, c09singles("single/b1", corpus["rich3"], "compose.yaml", "b1")...)
 	// value variants: every boolean leaf flipped, every numeric leaf set to zero (omitempty victims)
-	for _, n := range []string{"rich", "rich2", "rich3"} {
+	variantInputs := []string{"rich", "rich2", "rich3"}
+	if !quick {
+		// thorough: the leaves of every loadable single-file corpus input
+		variantInputs = nil
+		for _, n := range sortedKeys(corpus) {
+			if strings.HasPrefix(n, "bad-") || n == "missing-file" || len(corpus[n].Main) != 1 || corpus[n].Main[0] != "compose.yaml" {
+				continue
+			}
+			variantInputs = append(variantInputs, n)
+		}
+	}
+	for _, n := range variantInputs {
 		docs = append(docs, c09leafVariants(n, corpus[n], "compose.yaml")...)
 	}
 	// a literal dollar sign in a value (written $$ in the source)
@@ -403,7 +414,7 @@ func c09docs() []c09doc {
 }
 
 func (c09) Run(c *core.Ctx) {
-	docs := c09docs()
+	docs := c09docs(c.Quick())
 	covered := map[string]bool{}
 	for _, d := range docs {
 		for _, v := range c09variants {
